@@ -225,6 +225,8 @@ def parse_mc3(
     if rounds.startswith(_UZERO) and rounds != _UZERO:
         raise exc.ZeroPaddedRoundsError(handler)
     if rounds:
+        if not _is_plain_int(rounds, rounds_base):
+            raise exc.MalformedHashError(handler, "invalid rounds field")
         rounds = int(rounds, rounds_base)
     elif default_rounds is None:
         raise exc.MalformedHashError(handler, "empty rounds field")
@@ -259,6 +261,15 @@ def parse_mc3(
 #         raise exc.MalformedHashError(handler)
 
 
+def _is_plain_int(source, base=10):
+    """
+    check that a numeric field only holds the ascii digits of <base> --
+    int() on its own also accepts signs, blanks, underscores and non-ascii digits.
+    """
+    digits = "0123456789abcdefABCDEF" if base == 16 else "0123456789"
+    return bool(source) and all(c in digits for c in source)
+
+
 def parse_int(source, base=10, default=None, param="value", handler=None):
     """
     helper to parse an integer config field
@@ -272,6 +283,8 @@ def parse_int(source, base=10, default=None, param="value", handler=None):
     if source.startswith(_UZERO) and source != _UZERO:
         raise exc.MalformedHashError(handler, f"zero-padded {param} field")
     if source:
+        if not _is_plain_int(source, base):
+            raise exc.MalformedHashError(handler, f"invalid {param} field")
         return int(source, base)
     if default is None:
         raise exc.MalformedHashError(handler, f"empty {param} field")
